@@ -525,9 +525,22 @@ def run_item(ctx, item):
                 ctx.violation("variant-count-not-2-to-the-r", f"{len(all_paths)} variants for {meta['n_simple']} independent simple repeats", w)
         # every variant is a part built by new_part_from_path (judged by its hook); cap the number materialised
         ctx.try_call(lambda: list(itertools.islice(S.iter_unfolded_parts(part, update_ids), 6)))
-    if rng.random() < 0.3:
+    if rng.random() < 0.5:
+        # a Score argument unfolds each part exactly as the part alone would unfold under the same options
         sc = S.Score([part], id="s")
-        ctx.try_call(S.unfold_part_maximal, sc, update_ids, ignore_leaps)
+        ok5, usc = ctx.try_call(S.unfold_part_maximal, sc, update_ids, ignore_leaps)
+        if ok and ok5:
+            tab = lambda p_: sorted((type(o).__name__, int(o.start.t), int(o.end.t) if o.end is not None else None, getattr(o, "id", None))  # noqa
+                                    for o in registered(p_) if isinstance(o, S.GenericNote))
+            ctx.check()
+            if tab(usc.parts[0]) != tab(umax):
+                ctx.violation("score-argument-unfolds-differently-from-its-part", f"unfold_part_maximal(Score, update_ids={update_ids}, ignore_leaps={ignore_leaps}): "
+                              f"{len(tab(usc.parts[0]))} notes vs {len(tab(umax))} for the part alone", dict(w, update_ids=update_ids, ignore_leaps=ignore_leaps))
+        ok6, usm = ctx.try_call(S.unfold_part_minimal, sc)
+        if ok2 and ok6:
+            ctx.check()
+            if tab(usm.parts[0]) != tab(umin):
+                ctx.violation("score-argument-unfolds-differently-from-its-part", "unfold_part_minimal(Score) differs from the part alone", w)
     # a second unfolding of the same part gives the same path (repeatability is part of 'the original is not modified')
     ok4, paths2 = ctx.try_call(S.get_paths, part, False, True, ignore_leaps)
     if ok and ok4:
